@@ -25,6 +25,9 @@ Sim == /\ DEPTH > 0 /\ Len(hist) < LEN
           ELSE IF Len(hist) = NInit + 1 THEN hist' = Append(hist, IF Rnd({1, 2, 3}) = 1
                                                                    THEN [o |-> "lookup", target |-> [peer |-> P(Rnd(1..40))], pred |-> "udp4", k |-> Rnd({1, 2, 3, 16})]
                                                                    ELSE [o |-> "lookup", target |-> [peer |-> P(Rnd(1..40))]])
+          \* the tail: ten peer time-outs in a row let the lookups run out of candidates and finish by themselves (unless the walk drew a
+          \* query time-out earlier), then the query time-out cuts off whatever is still open
+          ELSE IF Len(hist) >= LEN - 12 /\ Len(hist) < LEN - 2 THEN hist' = Append(hist, [o |-> "age", ms |-> 2100])
           ELSE IF Len(hist) = LEN - 2 THEN hist' = Append(hist, [o |-> "age", ms |-> 61000])
           ELSE IF Len(hist) = LEN - 1 THEN hist' = Append(hist, [o |-> "end"])
           ELSE IF Len(hist) >= LEN THEN FALSE
